@@ -1,0 +1,9 @@
+//go:build verif
+
+// Contracts for the gocv verifier (comment-only file; see /verif/DESIGN.md §4).
+package domain
+
+//@ func (m *MixMatcher) Match
+//@   nobody
+//@   log mixMatch
+//@   requires m != nil
